@@ -272,3 +272,45 @@ Section Oracles.
   Definition rd_hi_f : node -> func -> bool := fun _ _ => true.
   Definition rd_hi_a : annotation -> Z := fun _ => 1%Z.
 End Oracles.
+
+(* ------------------------------------------------------------------------------------------ *)
+(* The node pool.  The configuration delivers, per subscription tag ("" = the node{} section),   *)
+(* a list of links.  The pool is the multiset of (tag, link) OCCURRENCES: a link listed under   *)
+(* two tags, or twice under one tag, is two nodes.  [tagged] lists the tags in the (unspecified *)
+(* - Go map) iteration order; everything holds for every order.  [link_name] is an oracle: the  *)
+(* node name a link parses to, None when the link is rejected (such links are skipped).         *)
+(* ------------------------------------------------------------------------------------------ *)
+Definition tagged := list (string * list string).
+
+Section Links.
+  Variable link_name : string -> option string.
+
+  Definition occurrences (m : tagged) : list (string * string) :=
+    flat_map (fun e => map (fun l => (fst e, l)) (snd e)) m.
+
+  Definition usable (o : string * string) : bool :=
+    match link_name (snd o) with Some _ => true | None => false end.
+
+  Definition names_of (links : list string) : list string :=
+    flat_map (fun l => match link_name l with Some nm => [nm] | None => [] end) links.
+
+  (* names delivered under tag t, in the order listed *)
+  Definition names_under (t : string) (m : tagged) : list string :=
+    flat_map (fun e => if fst e =? t then names_of (snd e) else []) m.
+
+  (* exactly one pool node per usable occurrence: the count is preserved and, tag by tag, the
+     pool shows the names delivered under that tag, in order (so nothing is dropped, merged,
+     re-tagged or invented) *)
+  Definition pool_faithful (m : tagged) (pool : list node) : Prop :=
+    List.length pool = List.length (filter usable (occurrences m))
+    /\ forall t, map n_name (filter (fun n => n_tag n =? t) pool) = names_under t m.
+
+  Definition list_string_eqb (a b : list string) : bool :=
+    Nat.eqb (List.length a) (List.length b) && forallb (fun p => fst p =? snd p) (combine a b).
+
+  (* executable form over the tags that occur (in m or in the pool) *)
+  Definition pool_faithful_b (m : tagged) (pool : list node) : bool :=
+    Nat.eqb (List.length pool) (List.length (filter usable (occurrences m)))
+    && forallb (fun t => list_string_eqb (map n_name (filter (fun n => n_tag n =? t) pool)) (names_under t m))
+               (map fst m ++ map n_tag pool).
+End Links.
